@@ -374,7 +374,9 @@ class World(object):
             self.take_image("pre-commit:%s" % db._sim_name)
 
     def db_after(self, db, op, sql):
-        if self.capture and op in ("commit", "executescript"):
+        if self.capture:
+            # every database call is a crash point; images are de-duplicated by content, so
+            # a call that left the files unchanged (inside a transaction) costs one hash only
             self.take_image("post-%s:%s" % (op, db._sim_name))
 
     # --------------------------------------------------------- crash images
